@@ -250,7 +250,61 @@ pub fn test_tool(case: &DictCase) -> TestResult {
         .class(rejected_checked, "bad-row-rejected"))
 }
 
+/// Deterministic scale cases: replacement dictionaries of 70,000 words (more than 65,535
+/// patterns), and words of 255 / 256 / 257 / 4,096 / 32,767 characters (weight lists of one more).
+fn scale_cases() -> Vec<DictCase> {
+    use vcommon::mirror::NgramSpec;
+    let ch = |i: usize| char::from_u32(0x4E00 + (i % 300) as u32).unwrap();
+    let mut base = ModelSpec { char_window: 2, type_window: 1, bias: -5, ..ModelSpec::default() };
+    base.char_ngrams.push(NgramSpec { ngram: [ch(1), ch(2)].iter().collect(), weights: vec![4, -3, 2] });
+    base.dict.push(WordSpec { word: [ch(1), ch(2), ch(3)].iter().collect(), weights: vec![9, -9, 9, -9], comment: "old".into() });
+    let mut out = vec![];
+    // 70,000 two-character words; the texts walk over a few hundred of them
+    let many: Vec<WordSpec> = (0..70_000usize)
+        .map(|k| WordSpec { word: [ch(k / 300), ch(k % 300)].iter().collect(), weights: vec![(k % 17) as i32 - 8, (k % 5) as i32 - 2, (k % 3) as i32], comment: if k % 1000 == 0 { format!("c{k}") } else { String::new() } })
+        .collect();
+    out.push(DictCase {
+        spec: base.clone(),
+        texts: (0..4).map(|t| (0..80).map(|i| ch(i * (t + 2) * 13 + t)).collect()).collect(),
+        new_dict: many,
+        bad_row: Some(("ab".into(), vec![1, 2])),
+    });
+    for (k, n) in [255usize, 256, 257, 4096, 32_767].into_iter().enumerate() {
+        let word: String = (0..n).map(|i| ch(i * 7 + i / 9 + k)).collect();
+        let weights: Vec<i32> = (0..=n).map(|i| ((i * 31 + k) % 201) as i32 - 100).collect();
+        out.push(DictCase {
+            spec: base.clone(),
+            texts: vec![format!("{}{}{}", ch(5), word, ch(6)), word.chars().take(n - 1).collect()],
+            new_dict: vec![
+                WordSpec { word: word.clone(), weights: weights.clone(), comment: "long, \"word\"".into() },
+                WordSpec { word: [ch(5)].iter().collect(), weights: vec![3, -4], comment: String::new() },
+            ],
+            bad_row: Some((word, weights[..n].to_vec())),
+        });
+    }
+    out
+}
+
 pub fn run(rep: &mut Report) {
+    rep.run_enum(
+        "scale-library",
+        "replace_dictionary with 70,000 words and with words of 255 / 256 / 257 / 4,096 / 32,767 \
+characters: same clauses as library (a weight list one short of the word length is rejected)",
+        false,
+        scale_cases().into_iter(),
+        |c: &DictCase| test_library(c).map(|mut i| { i.nontrivial = true; i }),
+    );
+    rep.run_enum(
+        "scale-tool",
+        "the same dictionaries through manipulate_model --dump-dict / --replace-dict",
+        false,
+        scale_cases().into_iter().map(|mut c| {
+            // the tool case carries the dictionary inside the model
+            c.spec.dict = c.new_dict.clone();
+            c
+        }),
+        |c: &DictCase| test_tool(c).map(|mut i| { i.nontrivial = true; i }),
+    );
     let n = rep.n(30000, 1500000);
     rep.run_prop(
         "library",
